@@ -231,6 +231,10 @@ def wsgi_path_item(environ, name):
         return None
 
 
+# Largest resource amount accepted in a query string (signed 64-bit integer).
+_MAX_AMOUNT = 2 ** 63 - 1
+
+
 def normalize_resources_qs_param(qs):
     """Given a query string parameter for resources, validate it meets the
     expected format and return a dict of amounts, keyed by resource class name.
@@ -289,6 +293,18 @@ def normalize_resources_qs_param(qs):
                    'amount >= 1. Got: %(amount)d.')
             msg = msg % {
                 'resource_name': rc_name,
+                'amount': amount,
+            }
+            raise webob.exc.HTTPBadRequest(msg)
+        if amount > _MAX_AMOUNT:
+            # The amount is compared with integer columns in the database; a
+            # value that does not fit a signed 64-bit integer cannot be bound
+            # by every database driver.
+            msg = ('Requested resource %(resource_name)s requires '
+                   'amount <= %(max)s. Got: %(amount)s.')
+            msg = msg % {
+                'resource_name': rc_name,
+                'max': _MAX_AMOUNT,
                 'amount': amount,
             }
             raise webob.exc.HTTPBadRequest(msg)
